@@ -1,6 +1,6 @@
 package main
 
-var claimed = []string{"C01", "C03", "C04", "C05", "C06", "C07", "C08", "C09", "C12", "C16", "C17", "C18", "C20"}
+var claimed = []string{"C01", "C02", "C03", "C04", "C05", "C06", "C07", "C08", "C09", "C12", "C16", "C17", "C18", "C20"}
 
 var commonComponents = map[string]string{
 	"session state machine, run loop, timers (EventTimer, AfterFunc, ticker)": "real code on simulated time (testing/synctest)",
